@@ -8,6 +8,7 @@ import (
 	"image/color"
 	"image/png"
 	"io"
+	"sync"
 
 	"git.sr.ht/~rockorager/vaxis/log"
 	"git.sr.ht/~rockorager/vaxis/octreequant"
@@ -69,6 +70,8 @@ type KittyImage struct {
 	uploaded int32
 	encoding int32
 	buf      *bytes.Buffer
+	// mu guards buf, and version against the encoders started by Resize
+	mu sync.Mutex
 }
 
 func (vx *Vaxis) NewKittyGraphic(img image.Image) *KittyImage {
@@ -98,11 +101,13 @@ func (k *KittyImage) Draw(win Window) {
 	// the image
 	pid := uint(col+1)<<16 | uint(row+1)
 	writeFunc := func(w io.Writer) {
+		k.mu.Lock()
 		if !atomicLoad(&k.uploaded) {
 			w.Write(k.buf.Bytes())
 			atomicStore(&k.uploaded, true)
 			k.buf.Reset()
 		}
+		k.mu.Unlock()
 		fmt.Fprintf(w, "\x1B_Ga=p,i=%d,p=%d,C=1\x1B\\", k.id, pid)
 	}
 	deleteFunc := func(w io.Writer) {
@@ -151,22 +156,23 @@ func (k *KittyImage) Resize(w int, h int) {
 	}
 	// Placements of the previous encoding have to be made again:
 	// uploading an image again removes them from the terminal
+	k.mu.Lock()
 	k.version += 1
-
+	version := k.version
 	atomicStore(&k.encoding, true)
+	k.mu.Unlock()
+
 	go func() {
-		defer atomicStore(&k.encoding, false)
 		// Encode it to base64
 		buf := bytes.NewBuffer(nil)
 		wc := base64.NewEncoder(base64.StdEncoding, buf)
 		err := png.Encode(wc, img)
 		if err != nil {
 			log.Error("couldn't encode kitty image: %v", err)
-			return
 		}
 		wc.Close()
+		out := bytes.NewBuffer(nil)
 		b := make([]byte, 4096)
-		atomicStore(&k.uploaded, false)
 		for buf.Len() > 0 {
 			n, err := buf.Read(b)
 			if err == io.EOF {
@@ -176,12 +182,27 @@ func (k *KittyImage) Resize(w int, h int) {
 			if buf.Len() == 0 {
 				m = 0
 			}
-			fmt.Fprintf(k.buf, "\x1B_Gf=100,i=%d,m=%d;%s\x1B\\", k.id, m, string(b[:n]))
+			fmt.Fprintf(out, "\x1B_Gf=100,i=%d,m=%d;%s\x1B\\", k.id, m, string(b[:n]))
+		}
+		k.mu.Lock()
+		if version != k.version {
+			// Resize has been called again in the meantime: the
+			// size and the version of the image are those of that
+			// call, which will deliver its own encoding
+			k.mu.Unlock()
+			return
+		}
+		if err == nil {
+			k.buf = out
+			atomicStore(&k.uploaded, false)
 		}
 		// The image must be drawable by the time the application sees
 		// the Redraw
 		atomicStore(&k.encoding, false)
-		k.vx.PostEventBlocking(Redraw{})
+		k.mu.Unlock()
+		if err == nil {
+			k.vx.PostEventBlocking(Redraw{})
+		}
 	}()
 }
 
@@ -194,15 +215,18 @@ type Sixel struct {
 	h        int
 	version  int
 	encoding int32
+	// mu guards buf, w, h and version against the encoders started by
+	// Resize
+	mu sync.Mutex
 }
 
 // Draw draws the [Image] to the [Window]. The image will not be drawn
 // if it is larger than the window
 func (s *Sixel) Draw(win Window) {
-	if s.buf.Len() == 0 {
+	if atomicLoad(&s.encoding) {
 		return
 	}
-	if atomicLoad(&s.encoding) {
+	if s.buf.Len() == 0 {
 		return
 	}
 	if !win.contains(s.w, s.h) {
@@ -224,7 +248,9 @@ func (s *Sixel) Draw(win Window) {
 				})
 			}
 		}
+		s.mu.Lock()
 		w.Write(s.buf.Bytes())
+		s.mu.Unlock()
 	}
 	deleteFunc := func(_ io.Writer) {
 		// no-op. we expect users to Clear the screen or just print
@@ -254,26 +280,28 @@ func (s *Sixel) Destroy() {
 // upscaled, nor will it's aspect ratio be changed. Resize will be done in a
 // separate gorotuine. A Redraw event will be posted when complete
 func (s *Sixel) Resize(w int, h int) {
-	atomicStore(&s.encoding, true)
+	s.mu.Lock()
 	// The placement of the previous encoding has to be painted again
 	s.version += 1
+	version := s.version
+	atomicStore(&s.encoding, true)
+	s.mu.Unlock()
 	go func() {
-		defer atomicStore(&s.encoding, false)
 		// Resize the image
 		cellPixW := s.vx.winSize.XPixel / s.vx.winSize.Cols
 		cellPixH := s.vx.winSize.YPixel / s.vx.winSize.Rows
 		img := resizeImage(s.img, w, h, cellPixW, cellPixH)
 		max := img.Bounds().Max
-		s.w = max.X / cellPixW
+		cols := max.X / cellPixW
 		if max.X%cellPixW != 0 {
-			s.w += 1
+			cols += 1
 		}
-		s.h = max.Y / cellPixH
+		rows := max.Y / cellPixH
 		if max.Y%cellPixH != 0 {
-			s.h += 1
+			rows += 1
 		}
 		// Re-encode the image
-		s.buf.Reset()
+		buf := bytes.NewBuffer(nil)
 		var paletted image.Image
 		if p, ok := img.(*image.Paletted); ok && len(p.Palette) < 255 {
 			// fast-path for paletted images: pass through to sixel
@@ -281,15 +309,27 @@ func (s *Sixel) Resize(w int, h int) {
 		} else {
 			paletted = octreequant.Paletted(img, 254)
 		}
-		err := sixel.NewEncoder(s.buf).Encode(paletted)
+		err := sixel.NewEncoder(buf).Encode(paletted)
 		if err != nil {
 			log.Error("couldn't encode sixel: %v", err)
+		}
+		s.mu.Lock()
+		if version != s.version {
+			// Resize has been called again in the meantime: that
+			// call will deliver its own encoding
+			s.mu.Unlock()
 			return
+		}
+		if err == nil {
+			s.w, s.h, s.buf = cols, rows, buf
 		}
 		// The image must be drawable by the time the application sees
 		// the Redraw
 		atomicStore(&s.encoding, false)
-		s.vx.PostEventBlocking(Redraw{})
+		s.mu.Unlock()
+		if err == nil {
+			s.vx.PostEventBlocking(Redraw{})
+		}
 	}()
 }
 
